@@ -25,6 +25,11 @@ fn main() {
         let huge = k % 16 == 11;
         let dbdef = if huge { gen_db_sized(&mut r, 1, 100, 130) } else { gen_db(&mut r, 3, if big { 14 } else { 6 }) };
         let mut db = load_db(&dbdef);
+        // every other database also has secondary indexes (results must not depend on them)
+        let index_ddl = if k % 2 == 1 { add_random_indexes(&mut db, &dbdef, &mut r, "c01") } else { Vec::new() };
+        if !index_ddl.is_empty() {
+            sum.count("database:with-indexes");
+        }
         let mut cases = Vec::new();
         for _ in 0..per_db {
             let depth = if huge || big { 1 + r.below(2) as usize } else { 1 + r.below(3) as usize };
